@@ -64,7 +64,7 @@ def shards(tier, seed):
     out = []
     for i, n in enumerate(range(8, 257, 8)):
         out.append({"name": "sweep-%d" % n, "n": n, "exhaustive": "uint%d/int%d x 8 boundary values x all spellings x 3 positions" % (n, n)})
-    out += [{"name": "inject-%d" % i, "count": 4000 if T else 400} for i in range(16)]
+    out += [{"name": "inject-%d" % i, "count": 25000 if T else 400} for i in range(16)]
     return out
 
 
